@@ -203,26 +203,42 @@ def masses(name):
         undo = _install(sx)
         try:
             vol = name in VOL
+            from_geometry = False
             if vol:
                 V, cells = VOL[name]
-                mesh = meshgen.build(meshgen.embed_tets(cells, V), (), (), cells)
+                from_geometry = sx.flag("volumes_computed_from_the_geometry")
+                coords = meshgen.embed_tets(cells, V)
+                if from_geometry and sx.flag("one_cell_listed_with_the_opposite_orientation"):
+                    cells = [tuple(cells[0][i] for i in (1, 0, 2, 3))] + [tuple(c) for c in cells[1:]]
+                mesh = meshgen.build(coords, (), (), cells)
                 elems = cells
-                attr = mesh.cells.create_attribute("volume", float, dense=True)
+                if not from_geometry:
+                    attr = mesh.cells.create_attribute("volume", float, dense=True)
             else:
                 V, faces = SURF[name]
                 mesh = meshgen.build(meshgen.generic_coords(V), (), faces)
                 elems = faces
                 attr = mesh.faces.create_attribute("area", float, dense=True)
-            W = [sx.real("m%d" % i) for i in range(len(elems))]
-            sx.assume(symx.And(*[w > 0 for w in W]))
-            for i, w in enumerate(W):
-                attr[i] = w
+            if from_geometry:
+                # no cached measure on the mesh: the operators compute the cell volumes themselves (concrete coordinates,
+                # either orientation of the first cell); the reference is |det|/6
+                P = [np.array(c, dtype=float) for c in coords]
+                W = [abs(float(np.linalg.det(np.array([P[c[1]] - P[c[0]], P[c[2]] - P[c[0]], P[c[3]] - P[c[0]]])))) / 6 for c in cells]
+            else:
+                W = [sx.real("m%d" % i) for i in range(len(elems))]
+                sx.assume(symx.And(*[w > 0 for w in W]))
+                for i, w in enumerate(W):
+                    attr[i] = w
             inverse = sx.flag("inverse")
             sq = sx.flag("sqrt")
             tag = " [%s%s%s]" % (name, ", inverse" if inverse else "", ", sqrt" if sq else "")
             E = [tuple(int(x) for x in e) for e in mesh.edges]
             total = sum(W)
-            with _stubs(sx, Mm):
+            if from_geometry:
+                undo()              # plain floats all the way: the real numpy / scipy code runs unmodified
+                undo = lambda: None
+            import contextlib
+            with (contextlib.nullcontext() if from_geometry else _stubs(sx, Mm)):
                 try:
                     if vol:
                         mv = Mm.volume_weight_matrix(mesh, inverse=inverse, sqrt=sq)
